@@ -63,6 +63,7 @@ Definition E_NOTERASED : Z := 15.   (* ME unused space in not erased as expected
 Definition E_NOFV : Z := 16.        (* no firmware volumes in BIOS Region *)
 Definition E_GAP : Z := 17.         (* gap between regions *)
 Definition E_GAPEND : Z := 18.      (* gap between at end of flash *)
+Definition E_SIZENOTBLOCKS : Z := 19. (* flash size ... is not a multiple of the block size *)
 Definition E_UNMODELLED : Z := 99.  (* FFS2/FFS3 volume: outside this model *)
 
 Definition U16 : Z := 2 ^ 16.
@@ -285,6 +286,8 @@ Fixpoint fill_gaps (img : bytes) (size : Z) (sl : list fregion) (rs : list regio
   match rs with
   | [] =>
     if negb (offset =? size) then
+      (* a region is a range of whole blocks: a partial block at the end is refused *)
+      if negb (size mod ifd_block =? 0) then Err E_SIZENOTBLOCKS else
       do g <- gap_region img offset size; Ok [g]
     else Ok []
   | r :: rest =>
